@@ -48,7 +48,9 @@ def main():
                 if tgt is None:
                     print(name, "cannot place demo (package main?) - manual"); continue
                 dst = os.path.join(wt, tgt, "zz_seed_demo_test.go")
-                run = "go test -vet=off -count=1 -run 'Demo|Seed|Mut' ./%s/" % tgt
+                m0 = json.load(open(os.path.join(d, "meta.json")))
+                race = "CGO_ENABLED=1 go test -race" if m0.get("needs_race") else "go test"
+                run = race + " -vet=off -count=1 -run 'Demo|Seed|Mut' ./%s/" % tgt
                 shutil.copy(os.path.join(d, demo[0]), dst)
                 rc, out = sh(run, cwd=wt)
                 res["demo_passes_without"] = rc == 0 and "no tests to run" not in out
@@ -71,7 +73,7 @@ def main():
                     shutil.copy(os.path.join(d, "patch.diff"), sd)
                     shutil.copy(os.path.join(d, demo[0]), os.path.join(sd, "demo_test.go"))
                     meta = json.load(open(os.path.join(d, "meta.json")))
-                    meta["property"] = pid
+                    meta["property"] = pid[:3]
                     meta["demo_location"] = "%s/zz_seed_demo_test.go" % tgt
                     meta["verified_by_integrator"] = dict(res, how="fresh worktree of /repo HEAD; `git apply patch.diff`; `go test -vet=off -count=1 %s` passes; demo copied to %s fails with and passes without the change" % (PKGS, meta["demo_location"]))
                     json.dump(meta, open(os.path.join(sd, "meta.json"), "w"), indent=1)
